@@ -482,6 +482,14 @@ fn free_main(o: &Opts) -> i32 {
         ev.extend(hist);
         ev.push(final_event(&sh.store, &sh.keys));
         for e in &ev { writeln!(out, "{}", e).unwrap(); events += 1; }
+        if let Some(lp) = o.get("lockout") {
+            let mut f = std::fs::OpenOptions::new().create(true).append(true).open(lp).expect("lockout");
+            for e in &raw {
+                if e.kind == "lk" {
+                    writeln!(f, "{}", json!({"tid": e.tid + 1000 * round as u64, "lock": String::from_utf8_lossy(&e.key), "acq": e.a, "mode": e.b})).unwrap();
+                }
+            }
+        }
         // pin / device events for the no-overwrite-while-pinned check
         if pers {
             if let Some(pp) = o.get("pinout") {
